@@ -193,7 +193,7 @@ func init() {
 					continue
 				}
 				d := Doc{}
-				for _, tw := range [][2]string{{"1", "7"}, {"17", ""}, {"1", "6"}, {"16", ""}, {"1", "9"}, {"19", ""}, {"2", "7"}, {"27", ""}, {"1", "m7"}, {"1", "m"}, {"b1", "7"}, {"b17", ""},
+				for _, tw := range [][2]string{{"1", "7"}, {"17", ""}, {"1", "6"}, {"16", ""}, {"1", "9"}, {"19", ""}, {"2", "7"}, {"27", ""}, {"1", "m7"}, {"1", "m"}, {"b2", "7"}, {"b27", ""},
 					{"17", ""}, {"1", "7"}, {"#1", "9"}, {"#19", ""}, {"1", "69"}, {"16", "9"}} {
 					if tw[1] == "69" || (tw[0] == "16" && tw[1] == "9") {
 						continue // (no such built-in symbols)
